@@ -28,8 +28,10 @@ LEVEL_TEXT = ('Theorems (Props/C13.v): the record reader\'s seek arithmetic, tra
               'library header fields and step count, every getArray seek at the translated position, cells presented == words found there). '
               'TEMPERATURE and HEIGHT/PRESSURE (Model/TempHp.v, Proofs/TempHpProofs.v; layered record files over the One3d codec; both Memmap readers hand-modelled incl. the for-loop fall-through, the lazy reshapes and the marker check): height_pressure __recordposition translated (C13_heightpres_recordposition_is_spec_offset, '
               'C13_heightpres_readers_agree_on_data); temperature position generators: start and increment translated, loop hand-modelled '
-              '(C13_temperature_surface_positions, C13_temperature_air_positions). Tie H: constructors TC / HC of Corr/C13.v.')
-LEVEL_NOTE = 'Trusted: Coq kernel+vm_compute, py2coq, harness. The wind reader pair is compared by correspondence only.'
+              '(C13_temperature_surface_positions, C13_temperature_air_positions). Tie H: constructors TC / HC of Corr/C13.v. '
+              'WIND (Model/Wind.v, Proofs/WindProofs.v; Memmap reader hand-modelled incl. the RecordFile walk of its __init__, with a three-valued result read / raise / never returns): the record reader seek arithmetic is TRANSLATED from wind/Read.py (C13_wind_recordposition_is_spec_offset) and both readers '
+              'present the same cells (C13_wind_readers_agree_on_data). Tie H: constructor WC (every getArray seek at the translated position, cells == words there).')
+LEVEL_NOTE = 'Trusted: Coq kernel+vm_compute, py2coq, harness. The record reader probing loops (__gettimestep) are hand-modelled or left to the correspondence.'
 TECHNIQUE = 'Coq proof over source-translated arithmetic + differential correspondence of both readers'
 
 
@@ -185,6 +187,8 @@ def impl(case):  # noqa: F811
         return MC.run_o3_read(case)
     if MC.is_th(case):
         return MC.run_th_read(case)
+    if MC.is_wind(case):
+        return MC.run_w_read(case)
     if case['kind'].startswith('met-'):
         return MC.run_met(case)
     return _impl_u(case)
@@ -198,6 +202,8 @@ def coq_term(case, obs):  # noqa: F811
         return None if 'raises' in obs else MC.o3_term_read(case, obs)
     if MC.is_th(case):
         return None if 'raises' in obs else MC.th_term_read(case, obs)
+    if MC.is_wind(case):
+        return None if 'raises' in obs else MC.w_term_read(case, obs)
     if case['kind'].startswith('met-') or case['kind'] == 'uamiv-EMISSIONS-nz0':
         return None
     return _coq_u(case, obs)
